@@ -23,7 +23,7 @@ CONFIG = {
              'it observed forces re-execution of the owner in the next build) and a call that was told "already '
              'finished" must not be (that mutation forces nothing); evaluations = late calls + schedules judged; '
              'distinct_nontrivial = distinct (owner kind, method, outcome, recorded?) x switch sequences'),
-    'gates': ['late_calls', 'root_late_calls', 'straggler_schedules', 'straggler_ok_recorded',
+    'gates': ['complex_stragglers', 'complex_straggler_after_close', 'late_calls', 'root_late_calls', 'straggler_schedules', 'straggler_ok_recorded',
               'straggler_rejected', 'straggler_single_layers', 'next_build_probes'],
 }
 
@@ -117,6 +117,8 @@ def run_sequential(sh, rng):
 # ------------------------------------------------------------------ (b) stragglers
 def straggler_program(owner, method):
     target = 'pd' if method in ('list_dir', 'walk', 'is_dir') else 'probe'
+    if method in ('build_file', 'subbuild'):
+        target = 'late/out'
     fork = ['x', 'fork_late', method, target, 't1']
     funcs = {}
     if owner == 'sb':
@@ -128,8 +130,15 @@ def straggler_program(owner, method):
     elif owner == 'sb-raises':
         funcs['S'] = {'kind': 'sb', 'idx': 1, 'body': [['q', 'exists', 'in0', 'M'], fork, ['raise', 'S']]}
         root = [['sb', 'S', {'catch': True}], ['q', 'is_file', 'in0', 'M']]
-    else:
+    elif owner == 'root':
         root = [['q', 'is_file', 'in0', 'M'], fork]
+    else:
+        # root-raises / root-commits: the root overwrites a foreign file first (so that the rollback /
+        # commit has file-system work to do), forks the straggler and then raises / returns
+        funcs['G'] = {'kind': 'bf', 'idx': 1, 'body': [['write', 'g']]}
+        root = [['bf', 'ov/x', 'G', {'catch': True}], ['q', 'is_file', 'in0', 'M'], fork]
+        if owner == 'root-raises':
+            root.append(['raise', 'root'])
     return {'funcs': funcs, 'roots': [root]}, target
 
 
@@ -140,6 +149,7 @@ def run_straggler(sh, rng, owner, method, strategy_list, free=False):
         w.ext_write('in0', b'input zero')
         w.ext_write('probe', b'probe file')
         w.ext_write('pd/inner', b'x')
+        w.ext_write('ov/x', b'foreign file that the root overwrites')
         tok = w.save()
         try:
             for strategy in strategy_list:
@@ -150,13 +160,13 @@ def run_straggler(sh, rng, owner, method, strategy_list, free=False):
                 hooks = {}
                 if not free:
                     s = sched.Scheduler(strategy)
-                    hooks = {'fork': s.fork, 'fs_yield': s.fs_yield,
+                    hooks = {'fork': s.fork, 'fs_yield': s.fs_yield, 'event_clock': True,
                              'after_api': lambda rctx, sr, s=s: s.join_all()}
                 else:
                     def join_free(rctx, sr):
                         for t in getattr(rctx, 'free_threads', []):
                             t.join(10)
-                    hooks = {'after_api': join_free}
+                    hooks = {'after_api': join_free, 'event_clock': True}
                 opts = None
                 if s is not None:
                     opts = {'schedule_fork': {k: (v if k != 'at' else {str(a): b for a, b in v.items()})
@@ -174,26 +184,50 @@ def run_straggler(sh, rng, owner, method, strategy_list, free=False):
                         continue
                 tag = '%s|%s' % (owner, method)
                 bad = False
+                complex_straggler = method in ('build_file', 'subbuild')
                 for d in sr.divs:
                     sh.count('div:' + d['kind'])
+                    if complex_straggler:
+                        continue        # end state judged below, relative to when the call was invoked
                     if d['kind'] in KINDS:
                         sh.violation(signature(d) + '|straggler|' + tag, detail(d), case)
                         bad = True
-                if bad or sr.divs:
+                if bad or (sr.divs and not complex_straggler):
                     continue
                 if not sr.rctx.stragglers:
                     sh.inconclusive.append('straggler did not run')
                     continue
                 st = sr.rctx.stragglers[0]
                 marks = sr.rctx.marks
-                if owner == 'root':
+                if owner.startswith('root'):
                     t_fret = [t for (k, wh, t) in marks if k == 'fret' and wh == ''][-1]
                     t_done = None          # build() returning is after every mark; handled by join order
+                    # the fence must be up by the time the library starts its finalisation work
+                    # (commit / rollback): first library file-system event after the root function
+                    post = [e['clk'] for e in sr.mon.events if not e['user'] and e['phase'] == 'post-root'
+                            and 'clk' in e and e['thread'] != sr.rctx.stragglers[0].get('thread')]
+                    if post:
+                        t_done = min(post)
                 else:
                     t_fret = [t for (k, wh, t) in marks if k == 'fret' and wh != ''][0]
                     t_done = [t for (k, wh, t) in marks if k == 'done'][0]
                 out = st['out']
                 finished_msg = out[0] == 'exc' and out[1] == 'RuntimeError' and 'finished' in out[2]
+                if complex_straggler:
+                    sh.count('complex_stragglers')
+                    late = t_done is not None and st['t_call'] > t_done
+                    if late:
+                        sh.count('complex_straggler_after_close')
+                        evs = [e for e in sr.mon.events if e['thread'] == st.get('thread') and not e['user']
+                               and e['ev'] not in ('os.listdir', 'os.scandir')]
+                        exists = os.path.lexists(w.ap('late/out'))
+                        if not finished_msg or st['invoked'] or evs or exists:
+                            sh.violation('complex_call_after_close_has_effect|' + tag,
+                                         {'straggler': {k: v for k, v in st.items() if k != 'thread'},
+                                          't_close': t_done, 'events': [e['ev'] for e in evs][:4],
+                                          'target_exists': exists}, case)
+                    sh.nt((owner, method, out[0], late))
+                    continue
                 recorded_expected = None
                 if out[0] == 'ok':
                     # (a call that was attached under the builder's lock before the close may
@@ -244,7 +278,8 @@ def run_shard(sh):
     sched.install()
     if sh.idx % 4 == 0:
         run_sequential(sh, rng)
-    combos = [(o, m) for o in ('sb', 'bf', 'sb-raises', 'root') for m in QUERY_METHODS]
+    combos = [(o, m) for o in ('sb', 'bf', 'sb-raises', 'root') for m in QUERY_METHODS] + \
+        [(o, m) for o in ('root-raises', 'root-commits', 'sb', 'bf') for m in ('build_file', 'subbuild', 'is_file')] * 2
     rng.shuffle(combos)
     i = 0
     while sh.time_left() > 0:
@@ -279,6 +314,7 @@ def measure(owner, method):
         w.ext_write('in0', b'input zero')
         w.ext_write('probe', b'probe file')
         w.ext_write('pd/inner', b'x')
+        w.ext_write('ov/x', b'foreign file that the root overwrites')
         s = sched.Scheduler({'kind': 'none'})
         w.build(program, program['roots'][0], {}, label=0,
                 hooks={'fork': s.fork, 'fs_yield': s.fs_yield, 'after_api': lambda rctx, sr: s.join_all()})
